@@ -131,9 +131,9 @@ only record on the field line / only record on a continuation line / first, midd
 / first (= on the field line), middle, last record of the mixed layout; built object: list holding only that record /
 first, middle, last record of a list / the bare record}; the field stands first / in the middle / last among the
 structured fields.  Judgement: the ordinary one, then the generated text (parsed cases) and the dumped text go through
-EVERY input form (str, bytes, lines with / without newline, text file, binary file, cls.iter_paragraphs over str /
-lines / binary file) and - Dsc, Changes, BuildInfo - through the same forms with the document wrapped in the clear-sign
-armor sign() writes; each time exactly one paragraph must come out that exposes all records of all structured fields
+EVERY input form (str, bytes, lines with / without newline, text file, binary file, and cls.iter_paragraphs over str /
+lines / a binary file, rotating) and - Dsc, Changes, BuildInfo - with the document wrapped in the clear-sign armor sign()
+writes (as str and in two of the other forms, rotating); each time exactly one paragraph must come out that exposes all records of all structured fields
 (those behind the look-alike included) and shows every field name that was written.
 """
 import collections
@@ -287,15 +287,15 @@ RULE = ('One case = one paragraph of one class (Dsc, Changes, BuildInfo, PdiffIn
         'records on continuation lines / the first (= on the field line), a middle, the last record of the mixed layout; built '
         'object given a list holding only that record / a list with it as first, middle, last record / the bare record - with '
         'the structured field rotating (thorough: every structured field the class fits), the field standing first / in the '
-        'middle / last among 1..all structured fields of the paragraph (plain fields around them), the record line written '
+        'middle / last among 1..4 structured fields of the paragraph (plain fields around them), the record line written '
         'with ONE blank between tokens (always for the armor classes, else in two of three cases), input form and dump route '
         'rotating; plus paragraphs in which 2 or more records of 1..8 fields are look-alikes of random classes (in four of ten '
         'the first one reads like an armor BEGIN line and the last one like an armor END line).  Each such case is judged the '
         'ordinary way (records exposed, dump returns, width rule, re-parse, equality protocol, stability) and then the generated '
         'text (parsed cases) and the dumped text are read through every input form - cls(str), cls(bytes), cls(lines), cls(lines '
-        'without newline), cls(text file), cls(binary file), cls.iter_paragraphs over str / lines / a binary file - and, for '
+        'without newline), cls(text file), cls(binary file), cls.iter_paragraphs over str / lines / a binary file (one of the three, rotating) - and, for '
         'Dsc / Changes / BuildInfo, wrapped in the clear-sign armor ("-----BEGIN PGP SIGNED MESSAGE-----", Hash header, empty line, '
-        'the document, "-----BEGIN PGP SIGNATURE-----" .. "-----END PGP SIGNATURE-----") as str and in three of the other seven '
+        'the document, "-----BEGIN PGP SIGNATURE-----" .. "-----END PGP SIGNATURE-----") as str and in two of the other seven '
         'forms (rotating): every time exactly one paragraph must come out, with all records of all structured fields - the '
         'look-alike one and everything behind it - and with every field name that was written.  '
         'A single-dump case is non-trivial when at least one structured field of the class is absent and at least one present '
@@ -481,9 +481,9 @@ REPS4 = {'quick': 20, 'thorough': 150}         # fillings per (config, subset, m
 PD_MAXK = {'quick': 3, 'thorough': 4}          # PdiffIndex: all subsets up to this size ...
 PD_REPS = {'quick': 2, 'thorough': 6}
 PD_RANDOM = {'quick': 300, 'thorough': 2000}   # ... plus this many random larger subsets
-RANDOM = {'quick': 11000, 'thorough': 550000}   # free random stream
+RANDOM = {'quick': 11000, 'thorough': 550000}   # free random stream (round 9: trimmed 3.5 % to pay for the look-alike class)
 PD_EXTRA = {'quick': 1200, 'thorough': 40000}   # PdiffIndex Current-as-list / single-line 3-column cases
-HIST = {'quick': 5600, 'thorough': 187000}      # histories (one object, 2..4 dumps with mutations between)
+HIST = {'quick': 5600, 'thorough': 187000}      # histories (one object, 2..4 dumps with mutations between; round 9: - 3.5 %)
 # mixed text layout (first record on the field line, further records on continuation lines)
 MIXED_P = 0.25                                  # share of >= 2-record fields of ANY parsed text written that way
 MIXED_REPS = {'quick': 10, 'thorough': 150}     # fillings per (config, structured field, record count 2..4)
@@ -1747,6 +1747,107 @@ for _tier in ('quick', 'thorough'):
                 FLOORS[_tier][_kind].pop(_k, None)
             else:
                 FLOORS[_tier][_kind][_k] = _v
+# LK-FLOORS (round 9): record tokens that together spell a line with a meaning elsewhere in the format.  The enumeration is
+# deterministic and floored programmatically in _enum_floors() (lk-enum:*: every configuration x class, class x shape, class x
+# column count, every structured field); the literal below holds 50 % of what the unchanged tree measures (quick: minimum over
+# VERIF_SEED 0..3, thorough: seed 0; two digits kept; only counters whose minimum is >= 40 / 60) for the judged read-backs
+# (M.lk = one paragraph read through one input form and found complete; M.lk.generated-text / M.lk.dumped-text /
+# M.lk.clear-signed; lk:via:<text>:<form>), the classes, positions, layouts and the paragraphs with several look-alikes, so that
+# a run which never drives - or never judges - this class is INCONCLUSIVE, not held.
+_LK_FLOORS = {'quick': {'counters': {'lk-enum:case': 310,
+                        'lk-par:case': 80,
+                        'lk:case': 390,
+                        'lk:class:armor-begin-message': 81,
+                        'lk:class:armor-begin-signature': 85,
+                        'lk:class:armor-end-signature': 100,
+                        'lk:class:comment': 75,
+                        'lk:class:dash': 71,
+                        'lk:class:dot': 72,
+                        'lk:class:field-line': 72,
+                        'lk:class:plus': 73,
+                        'lk:columns:armor-begin-message:3': 77,
+                        'lk:columns:armor-begin-signature:3': 81,
+                        'lk:columns:armor-end-signature:3': 100,
+                        'lk:columns:comment:3': 66,
+                        'lk:columns:dash:3': 65,
+                        'lk:columns:dot:3': 66,
+                        'lk:columns:field-line:3': 67,
+                        'lk:columns:plus:3': 67,
+                        'lk:field-is-last-of-paragraph': 150,
+                        'lk:is-the-last-record-of-the-last-structured-field': 130,
+                        'lk:layout:armor-begin-message:list': 26,
+                        'lk:layout:armor-begin-message:multi': 28,
+                        'lk:layout:armor-begin-signature:list': 29,
+                        'lk:layout:armor-begin-signature:multi': 30,
+                        'lk:layout:armor-end-signature:list': 37,
+                        'lk:layout:armor-end-signature:multi': 34,
+                        'lk:layout:comment:list': 25,
+                        'lk:layout:comment:multi': 25,
+                        'lk:layout:dash:list': 25,
+                        'lk:layout:dash:multi': 25,
+                        'lk:layout:dot:list': 27,
+                        'lk:layout:dot:multi': 22,
+                        'lk:layout:field-line:list': 25,
+                        'lk:layout:field-line:multi': 22,
+                        'lk:layout:plus:list': 26,
+                        'lk:layout:plus:multi': 20,
+                        'lk:marked-records:3+': 61,
+                        'lk:mode:build': 140,
+                        'lk:mode:text': 230,
+                        'lk:paragraph-with-begin-then-end-look-alike': 28,
+                        'lk:record:armor-begin-message:first': 24,
+                        'lk:record:armor-begin-signature:first': 23,
+                        'lk:record:armor-begin-signature:last': 23,
+                        'lk:record:armor-end-signature:first': 24,
+                        'lk:record:armor-end-signature:last': 38,
+                        'lk:record:armor-end-signature:middle': 22,
+                        'lk:record:comment:last': 21,
+                        'lk:record:dot:last': 22,
+                        'lk:record:field-line:first': 22,
+                        'lk:record:plus:last': 21,
+                        'lk:records-or-structured-fields-follow': 510,
+                        'lk:via:dumped-text:bfile': 390,
+                        'lk:via:dumped-text:bytes': 390,
+                        'lk:via:dumped-text:clear-signed-bfile': 47,
+                        'lk:via:dumped-text:clear-signed-bytes': 54,
+                        'lk:via:dumped-text:clear-signed-file': 53,
+                        'lk:via:dumped-text:clear-signed-iter-lines': 53,
+                        'lk:via:dumped-text:clear-signed-iter-str': 49,
+                        'lk:via:dumped-text:clear-signed-lines': 55,
+                        'lk:via:dumped-text:clear-signed-lines_nonl': 55,
+                        'lk:via:dumped-text:clear-signed-str': 190,
+                        'lk:via:dumped-text:file': 390,
+                        'lk:via:dumped-text:iter-bfile': 120,
+                        'lk:via:dumped-text:iter-lines': 120,
+                        'lk:via:dumped-text:iter-str': 120,
+                        'lk:via:dumped-text:lines': 390,
+                        'lk:via:dumped-text:lines_nonl': 390,
+                        'lk:via:dumped-text:str': 390,
+                        'lk:via:generated-text:bfile': 230,
+                        'lk:via:generated-text:bytes': 230,
+                        'lk:via:generated-text:clear-signed-bfile': 32,
+                        'lk:via:generated-text:clear-signed-bytes': 33,
+                        'lk:via:generated-text:clear-signed-file': 29,
+                        'lk:via:generated-text:clear-signed-iter-lines': 28,
+                        'lk:via:generated-text:clear-signed-iter-str': 33,
+                        'lk:via:generated-text:clear-signed-lines': 36,
+                        'lk:via:generated-text:clear-signed-lines_nonl': 31,
+                        'lk:via:generated-text:clear-signed-str': 110,
+                        'lk:via:generated-text:file': 230,
+                        'lk:via:generated-text:iter-bfile': 70,
+                        'lk:via:generated-text:iter-lines': 76,
+                        'lk:via:generated-text:iter-str': 72,
+                        'lk:via:generated-text:lines': 230,
+                        'lk:via:generated-text:lines_nonl': 230,
+                        'lk:via:generated-text:str': 230},
+           'monitors': {'M.lk': 5300,
+                        'M.lk.clear-signed': 950,
+                        'M.lk.dumped-text': 3300,
+                        'M.lk.generated-text': 2000}},
+ 'thorough': {'counters': {}, 'monitors': {}}}
+for _tier in ('quick', 'thorough'):
+    FLOORS[_tier]['counters'].update(_LK_FLOORS[_tier]['counters'])
+    FLOORS[_tier]['monitors'].update(_LK_FLOORS[_tier]['monitors'])
 # MIXED-FLOORS: the enumerated mixed-layout class is deterministic - every structured field of every configuration
 # is parsed MIXED_REPS x {2, 3, 4 records} times (Release: x 2 behaviours); demand half of that per field, so a
 # run that does not drive the mixed layout for SOME field of SOME class is INCONCLUSIVE, not held.
@@ -2570,7 +2671,7 @@ LK_SHAPES = (('text', 'single', 'only'), ('text', 'multi', 'only'), ('text', 'mu
              ('build', 'list', 'only'), ('build', 'list', 'first'), ('build', 'list', 'middle'), ('build', 'list', 'last'),
              ('build', 'bare', 'only'))
 LK_REPS = {'quick': 1, 'thorough': 4}           # per enumerated item (see lk_enumerated)
-LK_PAR = {'quick': 200, 'thorough': 10000}      # paragraphs with several such records
+LK_PAR = {'quick': 160, 'thorough': 8000}      # paragraphs with several such records
 LK_BASE_FORMS = ('str', 'bytes', 'lines', 'lines_nonl', 'file', 'bfile')
 LK_ITER_FORMS = ('iter-str', 'iter-lines', 'iter-bfile')
 
@@ -2628,6 +2729,8 @@ def gen_lk_case(r, item):
     others = [x for x in sorted(mv.DOC[clsname]) if x != f]
     p = (0.5, 0.0, 0.85, 1.0)[(k + rep) % 4]
     sub = [x for x in others if r.random() < p]
+    if len(sub) > 3:
+        sub = r.sample(sub, 3)              # PdiffIndex: keep the paragraph (read back 7..20 times) small
     forms = input_forms_of(clsname)
     case = gen_case(r, clsname, behavior, sub, mode,
                     lk={f: {'n': n, 'layout': layout, 'marks': [[idx, template, c]], 'tight': (k + rep) % 3 != 0}},
@@ -5308,12 +5411,13 @@ def lk_suffix(case):
 
 def lk_forms(clsname, salt):
     """(form, wrapped in clear-sign armor?) - every input form the module has plus cls.iter_paragraphs over the document
-    (str, list of lines, binary file); for Dsc / Changes / BuildInfo additionally with the document wrapped in the armor
-    sign() writes: as str, and in three of the seven other forms (rotating with `salt`, the length of the text)."""
-    out = [(f, False) for f in LK_BASE_FORMS + LK_ITER_FORMS]
+    (over str / a list of lines / a binary file, one of the three, rotating with `salt`, the length of the text); for Dsc /
+    Changes / BuildInfo additionally with the document wrapped in the armor sign() writes: as str, and in two of the
+    seven other forms (rotating)."""
+    out = [(f, False) for f in LK_BASE_FORMS] + [(LK_ITER_FORMS[salt % 3], False)]
     if clsname in GPG_CLASSES:
         rest = LK_BASE_FORMS[1:] + LK_ITER_FORMS[:2]
-        out += [('str', True)] + [(rest[(salt + j) % len(rest)], True) for j in (0, 2, 4)]
+        out += [('str', True)] + [(rest[(salt // 3 + j) % len(rest)], True) for j in (0, 3)]
     return out
 
 
